@@ -21,8 +21,10 @@
 (* any stanza (including bind and session); a checker reply belongs to the *)
 (* exchange that asked for it and is ignored once that exchange has been   *)
 (* superseded.  Where the code knowingly does something harmless and odd   *)
-(* (SASL <abort/> is ignored, ANONYMOUS is created but never succeeds,     *)
-(* re-authentication and re-binding are accepted) the model does the same. *)
+(* (SASL <abort/> is ignored, SASL 2 <abort/> does not cancel, ANONYMOUS is *)
+(* created but never succeeds, the namespace of a <response/> is not        *)
+(* compared with its exchange, re-authentication and re-binding are         *)
+(* accepted) the model does the same.                                       *)
 (***************************************************************************)
 EXTENDS Naturals, Sequences, FiniteSets, TLC
 
